@@ -46,7 +46,15 @@ ASSUMPTIONS = [
     'frame round trips / isometry are decided with tolerance 2e-7 rad (1e-6 relative on separations, floor 5e-8 rad): arcsin near '
     '+-1 limits what doubles can return at the poles of either system',
     'node is the frame default (95 deg); radec_to_munu does not propagate a non-default node (outside the property)',
-    'angles <-> vectors: open domain (polar angle at least 1e-4 deg from 0 and 180); azimuth compared modulo 360',
+    'angles <-> vectors: open domain (polar angle at least 1e-4 deg from 0 and 180); azimuth compared modulo 360; unit vectors within '
+    '1e-3 .. 1e-12 rad of a pole must come back finite, in range and to 5e-8 (arccos loses half of its digits there); x_to_angles '
+    'divides by the SQUARED norm, so it is only meaningful for unit vectors (C18_x_to_angles_scale_invariant_refuted) -- non-unit and '
+    'zero vectors are outside the property',
+    'never-NaN / range / symmetry / agreement with the float64 vector formula (1e-6 relative + 1e-8 arcsec) are decided on ~9 million '
+    'pairs per run next to the antipode, coincidence, 90 deg, RA differences of -4 .. 4 half turns, both poles and the equator, with '
+    'displacements over the decades 1e-16 .. 1e-1 deg, three conventions, array and scalar calls (volume scans in the implementation '
+    'process); certified enclosures cover 180 - 1e-12 .. 180 - 1e-3 deg (a rotating third of the decades in the quick tier)',
+    'frame enclosures within 0.1 deg of a pole of the target system are certified to 5e-8 instead of 1e-10 (arcsin conditioning)',
 ]
 
 NODE = 95.0
@@ -57,11 +65,16 @@ NODE = 95.0
 getcontext().prec = 60
 
 
+def _hp_eps():
+    return D(10) ** -(getcontext().prec + 6)
+
+
 def _atan_small(x):
     s = t = x
     x2 = x * x
     n = 1
-    while abs(t) > D(10) ** -66 and n < 4000:
+    eps = _hp_eps()
+    while abs(t) > eps and n < 4000:
         t = -t * x2
         n += 2
         s += t / n
@@ -77,16 +90,29 @@ def hp_atan(x):
     return _atan_small(x) * (2 ** k)
 
 
-HP_PI = 4 * (4 * hp_atan(D(1) / 5) - hp_atan(D(1) / 239))
+_PI_CACHE = {}
+
+
+def hp_pi():
+    """pi at the precision of the current decimal context"""
+    p = getcontext().prec
+    if p not in _PI_CACHE:
+        _PI_CACHE[p] = 4 * (4 * hp_atan(D(1) / 5) - hp_atan(D(1) / 239))
+    return _PI_CACHE[p]
+
+
+HP_PI = hp_pi()
 
 
 def hp_sin(x):
     x = D(x)
-    x = x - (x / (2 * HP_PI)).to_integral_value() * (2 * HP_PI)
+    pi = hp_pi()
+    x = x - (x / (2 * pi)).to_integral_value() * (2 * pi)
     s = t = x
     x2 = x * x
     n = 1
-    while abs(t) > D(10) ** -66 and n < 4000:
+    eps = _hp_eps()
+    while abs(t) > eps and n < 4000:
         n += 2
         t = -t * x2 / ((n - 1) * n)
         s += t
@@ -94,24 +120,43 @@ def hp_sin(x):
 
 
 def hp_cos(x):
-    return hp_sin(D(x) + HP_PI / 2)
+    return hp_sin(D(x) + hp_pi() / 2)
 
 
-def hp_gcirc(units, ra1, dec1, ra2, dec2):
+def hp_hav(units, ra1, dec1, ra2, dec2):
+    """(haversine h, 1 - h) of the two points; 1 - h is computed as cos^2(ddec/2) - cos d1 cos d2 sin^2(dra/2) so that it keeps
+    its relative accuracy next to the antipode"""
     f = [D(x) for x in (ra1, dec1, ra2, dec2)]
     if units == 1:
         f = [f[0] * 15, f[1], f[2] * 15, f[3]]
     if units > 0:
-        f = [x * HP_PI / 180 for x in f]
+        f = [x * hp_pi() / 180 for x in f]
     a1, d1, a2, d2 = f
-    h = hp_sin((d2 - d1) / 2) ** 2 + hp_cos(d1) * hp_cos(d2) * hp_sin((a2 - a1) / 2) ** 2
+    cc = hp_cos(d1) * hp_cos(d2) * hp_sin((a2 - a1) / 2) ** 2
+    return hp_sin((d2 - d1) / 2) ** 2 + cc, hp_cos((d2 - d1) / 2) ** 2 - cc
+
+
+def hp_gcirc(units, ra1, dec1, ra2, dec2):
+    h, _ = hp_hav(units, ra1, dec1, ra2, dec2)
     if h >= 1:
-        d = HP_PI
+        d = hp_pi()
     elif h <= 0:
         d = D(0)
     else:
         d = 2 * hp_atan(h.sqrt() / (1 - h).sqrt())
-    return d if units == 0 else d * 180 / HP_PI * 3600
+    return d if units == 0 else d * 180 / hp_pi() * 3600
+
+
+def antipode_bits(units, pts):
+    """-log2(1 - h) rounded up (how close the haversine is to 1), None when 1 - h is zero to 150 digits (exactly antipodal);
+    decides the precision the Interval tactic needs to separate h from 1"""
+    from decimal import localcontext
+    with localcontext() as lc:
+        lc.prec = 170
+        _, om = hp_hav(units, *pts)
+        if om <= D(10) ** -150:
+            return None
+        return int(-om.ln() / D(2).ln()) + 1
 
 
 # ----------------------------------------------------------------------------
@@ -253,8 +298,12 @@ SEPS = [2.8e-10, 1e-9, 1e-8, 1e-7, 1e-6, 1e-5, 1e-4, 1e-3, 1e-2, 1e-1, 1.0, 10.0
 # the accuracy statement is purely relative (1e-6); the floor only serves exact zeros and is negligible at 1 micro-arcsecond:
 # 1e-13 arcsec (units 1, 2) = 4.85e-19 rad (units 0)
 FLOOR = {0: F(485, 10 ** 21), 1: F(1, 10 ** 13), 2: F(1, 10 ** 13)}
+MIRROR_SEPS = [10.0 ** -k for k in range(12, 2, -1)]      # distance from the antipode, degrees
+QUAD_SEPS = [90.0 - 1e-9, 90.0 - 1e-5, 90.0, 90.0 + 1e-7, 90.0 + 1e-3]
 SMALL_SEP = 1e-6     # below this: no RA wrap by 360 deg, no point exactly at a pole (see ASSUMPTIONS)
 TOP = {0: math.pi, 1: 648000.0, 2: 648000.0}
+# volume scans in the implementation's process (harness/impl/c18_impl.py near_scan)
+NEAR_KINDS = ['near-antipodal', 'near-coincident', 'near-quadrature', 'ra-multiples', 'near-pole', 'near-equator']
 
 
 # fixed members of the two open-finding families: (class, units, [ra1, dec1, ra2, dec2])
@@ -309,6 +358,45 @@ def gen_gcirc(ctx):
                     cases.append({'kind': 'generic', 'cls': cls, 'units': units, 'pts': to_units(base, units),
                                   'base': bid, 'sep': sep})
                 bid += 1
+    # ---- every small-separation family mirrored at the antipode: q at distance `ms` from p, then the antipode of q, with the RA
+    # difference close to 180 * m degrees (m = 1, -1, 3, -3); distance from the antipode over the decades 1e-12 .. 1e-3 deg.
+    # Quick tier: every third decade (rotating with the seed), thorough: all.  The Interval precision follows from how close the
+    # haversine is to 1 (antipode_bits); the pair is regenerated when it is exactly antipodal (the displacement rounded away).
+    for mi, ms in enumerate(MIRROR_SEPS):
+        if not ctx.thorough and (mi + ctx.seed) % 3 != 0:
+            continue
+        for cls in ('generic', 'polar', 'equator'):
+            for _ in range(reps):
+                for _attempt in range(20):
+                    if cls == 'generic':
+                        ra, dec = C.dyadic(rng, 0, 360, 8), C.dyadic(rng, -80, 80, 8)
+                    elif cls == 'polar':
+                        ra = C.dyadic(rng, 0, 360, 4)
+                        dec = rng.choice([1.0, -1.0]) * rng.choice([90.0, 90.0 - 2.0 ** -rng.randint(8, 14)])
+                    else:
+                        ra, dec = C.dyadic(rng, 0, 360, 8), rng.choice([0.0, 0.0, C.dyadic(rng, -1, 1, 10)])
+                    ra2, dec2 = destination(ra, dec, rng.uniform(0, 2 * math.pi), ms)
+                    base = [ra, dec, ra2 + 180.0 * rng.choice([1, 1, -1, 3, -3]), -dec2]
+                    tuples = {u: to_units(base, u) for u in (0, 1, 2)}
+                    bits = {u: antipode_bits(u, tuples[u]) for u in (0, 1, 2)}
+                    if all(b is not None for b in bits.values()):
+                        break
+                else:
+                    continue
+                for units in (0, 1, 2):
+                    cases.append({'kind': 'generic', 'cls': 'antipode-mirror', 'sub': cls, 'units': units, 'pts': tuples[units],
+                                  'base': bid, 'sep': 180.0 - ms, 'prec': max(220, bits[units] + 120)})
+                bid += 1
+    # ---- separations next to 90 degrees (haversine next to 1/2)
+    quads = QUAD_SEPS if ctx.thorough else [QUAD_SEPS[(ctx.seed + k) % len(QUAD_SEPS)] for k in (0, 2)]
+    for qs in quads:
+        for _ in range(reps):
+            ra, dec = C.dyadic(rng, 0, 360, 8), rng.choice([C.dyadic(rng, -80, 80, 8), 0.0, 90.0, -90.0])
+            ra2, dec2 = destination(ra, dec, rng.uniform(0, 2 * math.pi), qs)
+            base = [ra, dec, ra2 + rng.choice([0.0, 0.0, 360.0, -360.0]), dec2]
+            for units in (0, 1, 2):
+                cases.append({'kind': 'generic', 'cls': 'quadrature', 'units': units, 'pts': to_units(base, units), 'base': bid, 'sep': qs})
+            bid += 1
     # Two input families on which no double-precision evaluation of degree/hour (resp. full-turn) coordinates reaches 1e-6
     # relative below ~1e-6 deg.  They are genuine shortfalls against the letter of the property (open known findings), so
     # they are generated: first a fixed list (the same inputs for every seed, so the replay is deterministic), then random ones.
@@ -366,7 +454,7 @@ def gcirc_lemma(name, c, r, negate=False):
     elif c['kind'] == 'antipodal':
         prf = 'rewrite (gcirc_S_antipodal %d %s %s %s %s) by (try lia; cbn [Z.eqb Pos.eqb]; lra). interval.' % (u, a, d, a2, d2)
     else:
-        prec = 220 if c['sep'] > 179.5 else 100
+        prec = c.get('prec') or (220 if c['sep'] > 179.5 else 100)
         prf = ('unfold gcirc_S, gcirc_rad. rewrite asin_sqrt_atan.\n'
                '  2:{ split; [apply hav_range | unfold hav, deg; interval with (i_prec %d)]. }\n'
                '  unfold atan_form, hav, arcsec_of_rad, deg. interval with (i_prec %d).' % (prec, prec))
@@ -398,6 +486,16 @@ def check_gcirc(ctx, have_spec):
         for kind in ('antipodal', 'antipodal-grid', 'coincident', 'poles'):
             jobs.append({'op': 'gcirc_nan_scan', 'units': units, 'kind': kind, 'n': nscan, 'seed': ctx.rng.getrandbits(32)})
             where.append(('scan', (units, kind)))
+    # volume scans around the configurations where the haversine argument is close to 0, 1/2 and 1 and the RA difference close to
+    # a multiple of half a turn: displacements over the decades 1e-16 .. 1e-1 deg, all three conventions, array and scalar calls
+    for units in (0, 1, 2):
+        for kind in NEAR_KINDS:
+            nn = ctx.n(1000000, 4000000) if kind == 'near-antipodal' else ctx.n(400000, 2000000)
+            # several jobs per kind: the pieces run in different processes
+            for _ in range(2 if kind == 'near-antipodal' else 1):
+                jobs.append({'op': 'gcirc_near_scan', 'units': units, 'kind': kind, 'n': nn // (2 if kind == 'near-antipodal' else 1),
+                             'seed': ctx.rng.getrandbits(32)})
+                where.append(('near', (units, kind)))
     nb = min(C.NPROC, len(jobs))
     outs = C.run_impl_parallel('c18_impl.py', [jobs[k::nb] for k in range(nb)])
     results = [None] * len(jobs)
@@ -407,6 +505,8 @@ def check_gcirc(ctx, have_spec):
     ctx.coverage['pydl_file'] = outs[0]['pydl_file']
     fwd, swp = {}, {}
     scanned = 0
+    near_stats = {}
+    near_seen = set()
     for (kind, what), job, r in zip(where, jobs, results):
         if 'err' in r:
             ctx.violation('C18:gcirc:impl-error:%s' % r['err'], 'gcirc raised %s on %s' % (r['err'], job['op']),
@@ -419,6 +519,29 @@ def check_gcirc(ctx, have_spec):
             if r['raised'] != 'ValueError':
                 ctx.violation('C18:gcirc:bad-units', 'gcirc(units=%s) did not raise ValueError (%s)' % (what, r['raised']),
                               {'kind': 'failing-input', 'job': job, 'impl_result': r}, True)
+        elif kind == 'near':
+            scanned += 2 * r['n'] + r['scalar_calls']
+            st = near_stats.setdefault('units=%d %s' % what, {'pairs': 0, 'failures': 0})
+            st['pairs'] += r['n']
+            st['failures'] += sum(r['counts'].values())
+            st['reference_range_deg'] = [min(r['min_ref_deg'], st.get('reference_range_deg', [999, 0])[0]),
+                                         max(r['max_ref_deg'], st.get('reference_range_deg', [999, 0])[1])]
+            if not r['input_unchanged']:
+                ctx.violation('C18:gcirc:input-modified', 'gcirc modified its arguments (scan %s, units=%d)' % (what[1], what[0]),
+                              {'kind': 'failing-input', 'job': job}, True)
+            for fault, ex in r['examples'].items():
+                # signature = what failed, in which regime of separation (not which scan produced it), which convention
+                ref = ex['reference_deg']
+                regime = 'near-antipodal' if ref > 179.9 else 'near-coincident' if ref < 0.1 else 'general'
+                sig = 'C18:gcirc:%s:%s:units=%d' % ('nan' if fault == 'scalar' and not isnum(ex['gcirc']) else fault, regime, what[0])
+                if sig in near_seen:
+                    continue
+                near_seen.add(sig)
+                ctx.violation(sig, 'gcirc%r (units=%d) = %r; the two points are %.15g deg apart (vector formula); %d of %d pairs of the '
+                              '%s scan fail this way' % (tuple(ex['input']), what[0], ex['gcirc'], ref, r['counts'][fault], r['n'], what[1]),
+                              {'kind': 'failing-input', 'units': what[0], 'input': ex['input'], 'gcirc': ex['gcirc'],
+                               'swapped': ex.get('swapped'), 'reference_deg': ref, 'fault': fault, 'scan': what[1],
+                               'counts': r['counts'], 'job': job}, True)
         else:
             scanned += r['n']
             if r['nonfinite'] or r['out_of_range'] or r['nonzero_coincident']:
@@ -520,7 +643,7 @@ def check_gcirc(ctx, have_spec):
                     rep['item'] = 'enclosure |gcirc_S - impl| <= tol could be neither proved nor refuted'
                     ctx.violation(sig, 'enclosure for gcirc case not provable (units=%d, sep~%g deg)' % (c['units'], c['sep']), rep, False)
     return {'cases': cases, 'results': fwd, 'n_lemmas': len(lemmas), 'enclosure_failures': encl_fail, 'coq_s': secs,
-            'scanned': scanned, 'stats': stats, 'sample_lemma': lemmas[0] if lemmas else None, 'nviol': nviol}
+            'near_stats': near_stats, 'scanned': scanned, 'stats': stats, 'sample_lemma': lemmas[0] if lemmas else None, 'nviol': nviol}
 
 
 # ----------------------------------------------------------------------------
@@ -532,6 +655,9 @@ def sky_grid(ctx, stripe):
     inc = float(incl_doc(stripe))
     pts = [(0.0, 0.0), (95.0, 0.0), (275.0, 0.0), (5.0, 45.0), (185.0, -45.0), (0.0, 90.0), (123.0, 90.0), (0.0, -90.0),
            (311.5, -90.0), (95.0, 89.999), (359.5, -89.9999), (10.0, 32.5), (200.0, -60.0)]
+    # grid points 13, 14 are the poles of the stripe system (appended below); after the random points: longitudes outside [0, 360)
+    # (C18_radec_roundtrip_mod_turn: the round trip holds for every RA, modulo one turn)
+    wraps = [(-100.5, 10.0), (725.25, -30.0), (360.0, 0.0), (-360.0, 45.0), (455.0, 0.0)]
     # poles of the stripe system: direction (0, -sin i, cos i) in the node frame, and its antipode
     i = math.radians(inc)
     for sg in (1.0, -1.0):
@@ -539,6 +665,7 @@ def sky_grid(ctx, stripe):
         pts.append(((math.degrees(math.atan2(v[1], v[0])) + NODE) % 360.0, math.degrees(math.asin(max(-1, min(1, v[2]))))))
     for _ in range(ctx.n(14, 60)):
         pts.append((C.dyadic(rng, 0, 360, 6), C.dyadic(rng, -90, 90, 6)))
+    pts += wraps
     # close pairs for the isometry check
     for _ in range(ctx.n(4, 20)):
         ra, dec = C.dyadic(rng, 0, 360, 6), C.dyadic(rng, -85, 85, 6)
@@ -549,7 +676,9 @@ def sky_grid(ctx, stripe):
 
 def munu_grid(ctx):
     rng = ctx.rng
-    pts = [(95.0, 0.0), (0.0, 0.0), (185.0, 0.0), (275.0, 0.0), (5.0, 0.0), (10.0, 90.0), (200.0, -90.0), (60.0, 1.25), (300.0, -1.25)]
+    pts = [(95.0, 0.0), (0.0, 0.0), (185.0, 0.0), (275.0, 0.0), (5.0, 0.0), (10.0, 90.0), (200.0, -90.0), (60.0, 1.25), (300.0, -1.25),
+           # mu outside [0, 360): C18_munu_roundtrip_mod_turn
+           (-100.5, 10.0), (725.25, -30.0), (360.0, 0.0), (-265.0, 0.0), (455.0, 0.0)]
     for _ in range(ctx.n(12, 50)):
         pts.append((C.dyadic(rng, 0, 360, 6), rng.choice([0.0, C.dyadic(rng, -90, 90, 6), C.dyadic(rng, -2, 2, 8)])))
     for _ in range(ctx.n(3, 12)):
@@ -682,9 +811,14 @@ def check_munu(ctx, have_spec):
                       'images': [[r['lon1'][k], r['lat1'][k]], [r['lon1'][k + 1], r['lat1'][k + 1]]]}, True)
         if st in encl_stripes:
             cand = [k for k in range(n) if vin[k] is not None]
-            for k in cand[:1] + rng.sample(cand, min(len(cand), ctx.n(1, 10))):
+            # r2m: one of the two poles of the stripe system (grid points 13, 14: the latitude returned is +-90 deg) is always certified
+            poles = [k for k in (13 + st % 2,) if kind == 'r2m' and k in cand]
+            for k in cand[:1] + poles + rng.sample(cand, min(len(cand), ctx.n(1, 10))):
                 encl.append((kind, st, lon[k], lat[k], r['lon1'][k], r['lat1'][k]))
-    lemmas = [munu_lemma('m%d' % k, *e) for k, e in enumerate(encl)]
+    # The returned latitude is arcsin(z): within 0.1 deg of a pole of the TARGET system arcsin loses half of its digits (an ulp of
+    # z = 1 - 1e-16 is 1.5e-8 rad of latitude), so there the certified tolerance is 5e-8 (still below the 2e-7 rad at which the
+    # direct round-trip check decides); everywhere else 1e-10.
+    lemmas = [munu_lemma('m%d' % k, *e, tol='(1 / 10000000000)' if abs(e[5]) < 89.9 else '(5 / 100000000)') for k, e in enumerate(encl)]
     # the documented inclination used in the lemmas is Spec.incl_doc
     chk = ['Lemma incl_%d : Qeq_bool (incl_doc %d) %s = true.\nProof. vm_compute. reflexivity. Qed.' % (s, s, C.qlit(incl_doc(s)))
            for s in sorted(encl_stripes)]
@@ -707,7 +841,7 @@ def check_munu(ctx, have_spec):
             want = (x, y * math.cos(i) - sg * z * math.sin(i), sg * y * math.sin(i) + z * math.cos(i))
             got = vec_deg(lon1 - NODE, lat1)
             diff = max(abs(a - b) for a, b in zip(want, got))
-            real = diff > 1e-8
+            real = diff > (1e-8 if abs(lat1) < 89.9 else 1e-7)
             viol('C18:munu:%s:vector:%s' % (kind, 'property' if real else 'unproved'),
                  '%s: stripe %d (%r, %r) -> (%r, %r) is not the rotation by %s incl about the node (unit vectors differ by %.3g)'
                  % ('radec_to_munu' if kind == 'r2m' else 'munu_to_radec', st, lon, lat, lon1, lat1, '-' if kind == 'r2m' else '+', diff),
@@ -749,6 +883,16 @@ def check_angles(ctx, have_spec):
             nrm = math.sqrt(sum(t * t for t in v))
             xs.append([t / nrm for t in v])
         jobs.append({'op': 'x2a', 'latitude': lat, 'x': xs})
+        # unit vectors 1e-3 .. 1e-12 rad from either pole (normalised in double precision) and the poles themselves: the arccos
+        # argument is within an ulp of +-1 (C18_x_to_angles_defined_on_unit: legal in exact arithmetic); arccos loses half of its
+        # digits there, so the vector comes back to 5e-8 only
+        xs = [[0.0, 0.0, 1.0], [0.0, 0.0, -1.0]]
+        for _ in range(ctx.n(60, 400)):
+            sc = 10.0 ** rng.uniform(-12, -3)
+            v = [rng.gauss(0, 1) * sc, rng.gauss(0, 1) * sc, rng.choice([1.0, -1.0])]
+            nrm = math.sqrt(sum(t * t for t in v))
+            xs.append([t / nrm for t in v])
+        jobs.append({'op': 'x2a', 'latitude': lat, 'x': xs, 'near_pole': True})
     # the latitude flag as truthy / falsy objects that are not the literals True / False; same object to both functions
     for flag, lat in (('np.True_', True), ('np.False_', False), ('1', True), ('0', False), ('cmp-true', True), ('cmp-false', False),
                       ('np.bool-array-element', True)):
@@ -810,9 +954,14 @@ def check_angles(ctx, have_spec):
                      % (lat, job['x'][:2], r.get('x_after'), r.get('second_call_same')),
                      {'kind': 'failing-input', 'input': {'latitude': lat, 'x': job['x'][:2]}, 'x_after_call': r.get('x_after'),
                       'second_call_same': r.get('second_call_same'), 'angles_unchanged': r.get('angles_unchanged')}, True)
+            xtol = 5e-8 if job.get('near_pole') else 1e-9
             for x, a, b in zip(job['x'], r['a'], r['back']):
                 n += 1
-                if not all(isnum(t) for t in list(a) + list(b)) or max(abs(s - t) for s, t in zip(x, b)) > 1e-9:
+                # C18_x_to_angles_ranges: azimuth in [-180, 180], polar angle in [0, 180] / latitude in [-90, 90], both flag branches
+                if all(isnum(t) for t in a) and not (-180.0 <= a[0] <= 180.0 and ((-90.0 <= a[1] <= 90.0) if lat else (0.0 <= a[1] <= 180.0))):
+                    viol('C18:angles:range:%s' % tag, 'x_to_angles(%r, latitude=%s) = %r is outside the documented ranges' % (x, flag or lat, a),
+                         {'kind': 'failing-input', 'input': {'latitude': lat, 'flag': flag, 'x': x}, 'angles': a}, True)
+                if not all(isnum(t) for t in list(a) + list(b)) or max(abs(s - t) for s, t in zip(x, b)) > xtol:
                     viol('C18:angles:x-roundtrip:%s' % tag, 'angles_to_x(x_to_angles(%r)) = %r via %r (latitude=%s)' % (x, b, a, flag or lat),
                          {'kind': 'failing-input', 'input': {'latitude': lat, 'flag': flag, 'x': x}, 'angles': a, 'back': b}, True)
     lemmas = [angles_lemma('a%d' % k, *e) for k, e in enumerate(encl)]
@@ -994,8 +1143,10 @@ def correspond(ctx, proof_ok=True):
         'coq_eval_s': round(g['coq_s'] + m['coq_s'] + a['coq_s'], 1),
         'gcirc_cases': len(g['cases']),
         'gcirc_nan_scan_pairs': g['scanned'],
+        'gcirc_near_scans': g['near_stats'],
         'gcirc_max_rel_err': {k: float('%.3g' % v) for k, v in sorted(g['stats'].items())},
-        'gcirc_case_kinds': {k: sum(1 for c in g['cases'] if c['cls'] == k) for k in ('generic', 'polar', 'equator', 'coincident', 'antipodal', 'exact-pole', 'full-turn')},
+        'gcirc_case_kinds': {k: sum(1 for c in g['cases'] if c['cls'] == k) for k in ('generic', 'polar', 'equator', 'coincident', 'antipodal', 'exact-pole', 'full-turn',
+                                                                                           'antipode-mirror', 'quadrature')},
         'munu_stripes': m['stripes'], 'munu_points': m['points'],
         'munu_worst_roundtrip_rad': m['worst_roundtrip_rad'], 'munu_worst_isometry_rad': m['worst_isometry_rad'],
         'angles_points': a['points'],
